@@ -169,11 +169,12 @@ async def _cde(self, protocol_factory, sock=None, **kw):
     host = _sock_host[id(sock)]
     proto = protocol_factory()
     tr = FakeTransport(host, sock, proto)
-    host.transports.append(tr)
     if sock is host.lsock:
         host.ltransport = tr
     else:
         host.transport = tr
+    if tr not in host.transports:  # (subclasses may collect transports in the `transport` setter)
+        host.transports.append(tr)
     proto.connection_made(tr)
     return tr, proto
 
